@@ -366,4 +366,355 @@ Proof.
   apply roundtrip2 with (f := f); assumption.
 Qed.
 
+(* ---------------------------------------------------------------- enum values NOT declared by the reader *)
+
+(* ReadCSV with Types{col: "enum"} but without EnumVals for it: whatever value table the written column had,
+   the reader derives its own.  [forget_vals] is the written column as such a reader is told about it. *)
+Definition forget_vals (c : column) : column :=
+  match c with ColEnum _ l => ColEnum [] l | c => c end.
+Definition forget_frame (f : frame) : frame := map (fun nc => (fst nc, forget_vals (snd nc))) f.
+
+Lemma col_strings_forget c : col_strings (forget_vals c) = col_strings c.
+Proof. destruct c; reflexivity. Qed.
+
+Lemma find_col_forget name : forall f,
+  find_col name (forget_frame f) = option_map (fun nc => (fst nc, forget_vals (snd nc))) (find_col name f).
+Proof.
+  induction f as [|[n c] f IH]; [reflexivity|]. cbn [forget_frame map fst snd find_col].
+  destruct (bytes_eqb n name); [reflexivity | exact IH].
+Qed.
+
+Lemma iter_cols_forget f tc wf : iter_cols f tc = Ok wf -> iter_cols (forget_frame f) tc = Ok (forget_frame wf).
+Proof.
+  unfold iter_cols. destruct (tc_columns tc) as [order|]; [|intros H; inversion H; reflexivity].
+  unfold forget_frame at 1. rewrite map_length.
+  destruct (negb (Nat.eqb (length order) (length f))); [discriminate|].
+  revert wf. induction order as [|name order IH]; intros wf H.
+  - cbn in H. inversion H. reflexivity.
+  - cbn [omap] in *. rewrite find_col_forget. destruct (find_col name f) as [nc|]; [|discriminate].
+    cbn [option_map obind] in *.
+    destruct (omap (fun name0 => match find_col name0 f with Some nc0 => Ok nc0 | None => Fail end) order)
+      as [ys| |]; try discriminate.
+    rewrite (IH ys eq_refl). cbn [obind] in *. inversion H. reflexivity.
+Qed.
+
+Lemma to_csv_forget f tc : to_csv format_float (forget_frame f) tc = to_csv format_float f tc.
+Proof.
+  unfold to_csv, to_csv_records.
+  assert (frame_len (forget_frame f) = frame_len f) as Hl.
+  { destruct f as [|[n c] f]; [reflexivity|]. destruct c; reflexivity. }
+  destruct (iter_cols f tc) as [wf| |] eqn:E.
+  - rewrite (iter_cols_forget f tc wf E). cbn [obind]. rewrite Hl. unfold forget_frame. rewrite !map_map. cbn [fst snd].
+    rewrite (map_ext (fun x : bytes * column => col_strings (forget_vals (snd x))) (fun x => col_strings (snd x)))
+      by (intros x; apply col_strings_forget). reflexivity.
+  - unfold iter_cols in *. destruct (tc_columns tc) as [order|]; [|discriminate].
+    unfold forget_frame at 1. rewrite map_length.
+    destruct (negb (Nat.eqb (length order) (length f))); [reflexivity|]. exfalso.
+    revert E. generalize (@nil (bytes * column)). induction order as [|name order IH]; intros acc E; [discriminate|].
+    cbn [omap] in E. destruct (find_col name f) as [nc|]; cbn [obind] in E.
+    + destruct (omap (fun name0 => match find_col name0 f with Some nc0 => Ok nc0 | None => Fail end) order)
+        as [ys| |] eqn:E2; try discriminate. eapply IH. reflexivity.
+    + clear IH.
+      assert (forall l, omap (fun name0 : bytes =>
+                match find_col name0 (forget_frame f) with Some nc0 => Ok nc0 | None => Fail end) l <> Panic) as HP.
+      { induction l as [|x l IHl]; [discriminate|]. cbn [omap]. destruct (find_col x (forget_frame f)); cbn [obind]; [|discriminate].
+        destruct (omap _ l); try discriminate. congruence. }
+      exact I.
+  - exfalso. unfold iter_cols in E. destruct (tc_columns tc) as [order|]; [|discriminate].
+    destruct (negb (Nat.eqb (length order) (length f))); [discriminate|].
+    induction order as [|name order IH]; [discriminate|].
+    cbn [omap] in E. destruct (find_col name f); cbn [obind] in E; [|discriminate].
+    destruct (omap (fun name0 => match find_col name0 f with Some nc0 => Ok nc0 | None => Fail end) order);
+      try discriminate. apply IH. reflexivity.
+Qed.
+
 End RoundTrip2.
+
+(* ================================================================ 3. from a physical frame *)
+
+From QF Require Import Model.Json Model.Observe.
+(* Model.Frame is imported last: from here on [frame], [col_len], [frame_len] mean the physical frame; the typed
+   table of Model/CsvSpec.v is written CsvSpec.frame, CsvSpec.col_len, CsvWrite.frame_len *)
+From QF Require Import Model.Frame Model.Filter Model.Ops Model.TableSpec.
+From QF Require Import Proofs.ObserveProofs.
+Local Open Scope nat_scope.
+
+(* the typed columns of Model/CsvSpec.v (what ReadCSV returns, what the typed views return) as a logical
+   table of [n] rows.  ColNone (zero rows, no type) does not occur when the types are declared. *)
+Definition col_cells (c : CsvSpec.column) : list cell :=
+  match c with
+  | ColInt l => map CInt l | ColFloat l => map CFloat l | ColBool l => map CBool l
+  | ColString l => map CStr l | ColEnum _ l => map CEnum l | ColNone => []
+  end.
+
+Definition col_ctype (c : CsvSpec.column) : ctype :=
+  match c with
+  | ColInt _ => TInt | ColFloat _ => TFloat | ColBool _ => TBool | ColString _ => TString
+  | ColEnum _ _ => TEnum | ColNone => TString
+  end.
+
+Definition table_of (n : nat) (g : CsvSpec.frame) : table :=
+  mkTable (map fst g) (map (fun nc => col_ctype (snd nc)) g)
+          (map (fun i => map (fun nc => nth i (col_cells (snd nc)) (CInt 0)) g) (seq 0 n)).
+
+(* the normalisations of the property, cell by cell: null string/enum -> "" (or "" -> null under EmptyNull),
+   every NaN is the one NaN *)
+Definition norm_tcell (e : bool) (c : cell) : cell :=
+  match c with
+  | CStr s => CStr (norm_cell e s)
+  | CEnum s => CEnum (norm_cell e s)
+  | CFloat x => CFloat (canon_float x)
+  | c => c
+  end.
+
+Definition norm_table (e : bool) (t : table) : table :=
+  mkTable (tnames t) (ttypes t) (map (map (norm_tcell e)) (trows t)).
+
+Lemma col_cells_readback e c : col_cells (readback_col e c) = map (norm_tcell e) (col_cells c).
+Proof.
+  destruct c as [l|l|l|l|[|v vals] l|]; cbn [readback_col norm_col col_cells]; rewrite ?map_map; reflexivity.
+Qed.
+
+Lemma col_ctype_readback e c : col_ctype (readback_col e c) = col_ctype c.
+Proof. destruct c as [l|l|l|l|[|v vals] l|]; reflexivity. Qed.
+
+Lemma table_of_readback e n (wf : CsvSpec.frame) :
+  table_of n (map (fun nc => (fst nc, readback_col e (snd nc))) wf) = norm_table e (table_of n wf).
+Proof.
+  unfold table_of, norm_table. cbn [tnames ttypes trows]. rewrite !map_map. cbn [fst snd]. f_equal.
+  - apply map_ext. intros nc. apply col_ctype_readback.
+  - apply map_ext. intros i. rewrite !map_map. apply map_ext. intros nc. cbn [snd].
+    rewrite col_cells_readback. change (CInt 0) with (norm_tcell e (CInt 0)) at 1. apply map_nth.
+Qed.
+
+(* enum cells of an observed column come out of its value table *)
+Definition enum_in_vals (c : CsvSpec.column) : Prop :=
+  match c with
+  | ColEnum vs l => Forall (fun o => match o with Some s => In s vs | None => True end) l
+  | _ => True
+  end.
+
+Lemma enum_cells_in d vs st : forall index zs,
+  omap (cell_at (ECol d vs st)) index = Ok (map CEnum zs) ->
+  Forall (fun o => match o with Some s => In s vs | None => True end) zs.
+Proof.
+  induction index as [|p index IH]; intros zs H.
+  - cbn in H. destruct zs; [constructor | discriminate].
+  - apply omap_cons_ok in H as (y & ys & Hy & Hys & Heq).
+    destruct zs as [|z zs]; [discriminate|]. cbn [map] in Heq. inversion Heq; subst y ys.
+    constructor; [|apply IH; exact Hys].
+    cbn [cell_at] in Hy. destruct (idx d p) as [r| |]; cbn [obind] in Hy; try discriminate.
+    unfold enum_string in Hy. destruct (enum_is_null r).
+    + cbn [obind] in Hy. inversion Hy. exact I.
+    + unfold idx in Hy. destruct (nth_error vs (N.to_nat r)) as [s|] eqn:E; cbn in Hy; [|discriminate].
+      inversion Hy. eapply nth_error_In. exact E.
+Qed.
+
+Lemma typed_column_cells c index cells :
+  omap (cell_at c) index = Ok cells ->
+  exists col, typed_column (col_type c) (enum_values c) cells = Ok col
+              /\ col_cells col = cells /\ col_ctype col = col_type c
+              /\ CsvSpec.col_len col = length cells /\ enum_in_vals col.
+Proof.
+  intro H. pose proof (col_cells_shape c index cells H) as S.
+  destruct c as [d|d|d|d|d vs st]; cbn [col_type] in *; destruct S as (zs & ->); unfold typed_column.
+  - rewrite (omap_prj_inj CInt) by reflexivity. eexists. split; [reflexivity|].
+    cbn [col_cells col_ctype CsvSpec.col_len enum_in_vals]. rewrite map_length. auto.
+  - rewrite (omap_prj_inj CFloat) by reflexivity. eexists. split; [reflexivity|].
+    cbn [col_cells col_ctype CsvSpec.col_len enum_in_vals]. rewrite map_length. auto.
+  - rewrite (omap_prj_inj CBool) by reflexivity. eexists. split; [reflexivity|].
+    cbn [col_cells col_ctype CsvSpec.col_len enum_in_vals]. rewrite map_length. auto.
+  - rewrite (omap_prj_inj CStr) by reflexivity. eexists. split; [reflexivity|].
+    cbn [col_cells col_ctype CsvSpec.col_len enum_in_vals]. rewrite map_length. auto.
+  - rewrite (omap_prj_inj CEnum) by reflexivity. eexists. split; [reflexivity|].
+    cbn [col_cells col_ctype CsvSpec.col_len enum_in_vals enum_values]. rewrite map_length.
+    repeat split. eapply enum_cells_in. exact H.
+Qed.
+
+Lemma zipc_seq (F : nat -> list cell) (d : cell) : forall xs k,
+  zipc xs (map F (seq k (length xs))) = map (fun i => nth (i - k) xs d :: F i) (seq k (length xs)).
+Proof.
+  induction xs as [|x xs IH]; intros k; [reflexivity|].
+  cbn [length seq map zipc]. rewrite Nat.sub_diag. cbn [nth]. f_equal. rewrite IH.
+  apply map_ext_in. intros i Hi. apply in_seq in Hi. replace (i - k) with (S (i - S k)) by lia. reflexivity.
+Qed.
+
+(* the frame as read through the typed views IS the logical table *)
+Lemma observe_cols_table f : forall cs rows,
+  (forall nc, In nc cs -> lookup_col f (fst nc) = Some (snd nc)) ->
+  rows_of cs (ix f) = Ok rows ->
+  exists obs, omap (observe_one f) cs = Ok obs /\ map fst obs = map fst cs
+    /\ map (fun nc => col_ctype (snd nc)) obs = col_types cs
+    /\ Forall (fun o => CsvSpec.col_len (snd o) = length (ix f)) obs
+    /\ Forall (fun o => enum_in_vals (snd o)) obs
+    /\ rows = map (fun i => map (fun nc => nth i (col_cells (snd nc)) (CInt 0)) obs) (seq 0 (length (ix f))).
+Proof.
+  induction cs as [|[n c] cs IH]; intros rows Hlk Hrows.
+  - rewrite rows_of_nil in Hrows. inversion Hrows; subst. exists []. repeat split; try constructor.
+    clear. generalize 0. induction (ix f) as [|p l IH]; intros k; [reflexivity|]. cbn [map length seq]. f_equal. apply IH.
+  - apply rows_of_cons in Hrows as (xs & rows' & Hxs & Hrows' & ->).
+    destruct (IH rows') as (obs & Hobs & Hnames & Htypes & Hlens & Henum & Hrec);
+      [intros nc Hin; apply Hlk; right; exact Hin|exact Hrows'|].
+    destruct (typed_column_cells c (ix f) xs Hxs) as (col & Hcol & Hcells & Hty & Hlen & Hin).
+    assert (Hone : observe_one f (n, c) = Ok (n, col)).
+    { pose proof (Hlk (n, c) (or_introl eq_refl)) as Hl. cbn [fst snd] in Hl.
+      unfold observe_one, observe_named, get_view. cbn [fst snd].
+      rewrite Hl. rewrite ctype_eqb_refl. cbn [obind].
+      rewrite (view_items_slice (mkView c (ix f)) xs Hxs). cbn [obind v_col]. rewrite Hcol. reflexivity. }
+    assert (Hxl : length xs = length (ix f)) by (apply (omap_len _ _ _ Hxs)).
+    exists ((n, col) :: obs). split; [|split; [|split; [|split; [|split]]]].
+    + cbn [omap]. rewrite Hone. cbn [obind]. rewrite Hobs. reflexivity.
+    + cbn [map fst]. f_equal. exact Hnames.
+    + cbn [map snd]. unfold col_types in *. cbn [map snd]. rewrite Hty, Htypes. reflexivity.
+    + constructor; [|exact Hlens]. cbn [snd]. rewrite Hlen. exact Hxl.
+    + constructor; [exact Hin | exact Henum].
+    + rewrite Hrec. rewrite <- Hxl. rewrite (zipc_seq _ (CInt 0)). apply map_ext. intros i.
+      cbn [map snd]. rewrite Hcells, Nat.sub_0_r. reflexivity.
+Qed.
+
+Theorem observe_table f t :
+  abs f = Ok t -> NoDup (col_names f) ->
+  exists o, observe_frame f = Ok o /\ table_of (length (ix f)) o = t
+    /\ Forall (fun nc => CsvSpec.col_len (snd nc) = length (ix f)) o
+    /\ Forall (fun nc => enum_in_vals (snd nc)) o.
+Proof.
+  intros Ht Hnd. destruct (abs_ok f t Ht) as (R & N & T).
+  destruct (observe_cols_table f (cols f) (trows t)) as (obs & Hobs & Hnames & Htypes & Hlens & Henum & Hrows);
+    [intros nc Hin; apply lookup_col_nodup; assumption|exact R|].
+  exists obs. split; [exact Hobs|]. split; [|split; assumption].
+  unfold table_of. rewrite Hnames, Htypes, <- Hrows. fold (col_names f). rewrite <- N, <- T.
+  destruct t; reflexivity.
+Qed.
+
+(* ---------------------------------------------------------------- Columns(order) *)
+
+Lemma find_col_some name : forall (o : CsvSpec.frame) nc, find_col name o = Some nc -> In nc o /\ fst nc = name.
+Proof.
+  induction o as [|[n c] o IH]; intros nc H; [discriminate|]. cbn [find_col] in H.
+  destruct (bytes_eqb n name) eqn:E.
+  - inversion H; subst. apply bytes_eqb_spec in E. split; [left; reflexivity | exact E].
+  - apply IH in H as [H1 H2]. split; [right; exact H1 | exact H2].
+Qed.
+
+Lemma iter_cols_order (o : CsvSpec.frame) : forall order wf,
+  omap (fun name => match find_col name o with Some nc => Ok nc | None => Fail end) order = Ok wf ->
+  map fst wf = order /\ forall nc, In nc wf -> In nc o.
+Proof.
+  induction order as [|name order IH]; intros wf H.
+  - cbn in H. inversion H. split; [reflexivity | intros nc []].
+  - apply omap_cons_ok in H as (y & ys & Hy & Hys & ->).
+    destruct (find_col name o) as [nc|] eqn:F; [|discriminate]. inversion Hy; subst y.
+    apply find_col_some in F as [F1 F2]. destruct (IH ys Hys) as [I1 I2]. split.
+    + cbn [map]. rewrite F2, I1. reflexivity.
+    + intros x [<-|Hx]; [exact F1 | apply I2; exact Hx].
+Qed.
+
+(* the columns written: the frame's own, or for Columns(order) the frame's column of each listed name *)
+Lemma iter_cols_spec (o : CsvSpec.frame) tc wf :
+  iter_cols o tc = Ok wf ->
+  (forall nc, In nc wf -> In nc o) /\ length wf = length o /\
+  match tc_columns tc with None => wf = o | Some order => map fst wf = order end.
+Proof.
+  unfold iter_cols. destruct (tc_columns tc) as [order|].
+  - destruct (Nat.eqb (length order) (length o)) eqn:L; cbn [negb]; [|discriminate].
+    intros H. apply iter_cols_order in H as [H1 H2]. apply Nat.eqb_eq in L.
+    split; [exact H2|]. split; [|exact H1]. rewrite <- L, <- H1, map_length. reflexivity.
+  - intros H. inversion H. auto.
+Qed.
+
+Lemma rt_premises_written e n (o wf : CsvSpec.frame) tc :
+  iter_cols o tc = Ok wf ->
+  rt_premises e n o = true ->
+  (forall order, tc_columns tc = Some order -> has_dup order = false) ->
+  rt_premises e n wf = true.
+Proof.
+  intros Hit Hp Hord. destruct (iter_cols_spec o tc wf Hit) as (Hsub & Hlen & Hnames).
+  unfold rt_premises in *. apply andb_true_iff in Hp as [Hp Hdup]. apply andb_true_iff in Hp as [Hne Hall].
+  apply andb_true_iff. split; [apply andb_true_iff; split|].
+  - destruct o; [discriminate|]. destruct wf; [discriminate | reflexivity].
+  - rewrite forallb_forall in *. intros nc Hnc. apply Hall. apply Hsub. exact Hnc.
+  - destruct (tc_columns tc) as [order|] eqn:T.
+    + rewrite Hnames, (Hord order eq_refl). reflexivity.
+    + subst wf. exact Hdup.
+Qed.
+
+(* a value table without values: every cell is null, so at most the empty string is derived *)
+Lemma card_ok_observed e c : enum_in_vals c -> card_ok e c = true.
+Proof.
+  destruct c as [l|l|l|l|[|v vals] l|]; intros H; try reflexivity.
+  cbn [enum_in_vals] in H. cbn [card_ok]. apply Nat.leb_le.
+  assert (incl (first_occ e (map opt_str l)) [[]]) as Hincl.
+  { intros s Hs. unfold first_occ in Hs. apply first_occ_incl in Hs as [[]|[Hs _]].
+    apply in_map_iff in Hs as (o & <- & Ho). rewrite Forall_forall in H. specialize (H o Ho).
+    destruct o as [s|]; [destruct H | left; reflexivity]. }
+  apply NoDup_incl_length in Hincl; [|apply first_occ_NoDup; constructor].
+  cbn [length] in Hincl. unfold enum_max_cardinality. lia.
+Qed.
+
+(* the premises on the physical frame, as a computable check: the frame as observed through its views has at
+   least one column, valid distinct names without CR, no CR in strings, null enum cells readable *)
+Definition phys_premises (e : bool) (f : frame) : bool :=
+  match observe_frame f with
+  | Ok o => rt_premises e (length (ix f)) o
+  | _ => false
+  end.
+
+Section Physical.
+Variable format_float : N -> bytes.
+Variable parse_float : bytes -> option N.
+Hypothesis float_roundtrip : forall x,
+  is_nan_bits x = false ->
+  format_float x <> [] /\ no_cr (format_float x) = true /\ parse_float (format_float x) = Some x.
+
+Theorem roundtrip_physical (f : frame) (t : table) tc doc e (chunks : list bytes) (term : rterm) :
+  abs f = Ok t -> NoDup (col_names f) ->
+  phys_premises e f = true ->
+  (forall order, tc_columns tc = Some order -> has_dup order = false) ->
+  frame_to_csv format_float f tc = Ok doc ->
+  Forall (fun c : bytes => c <> []) chunks -> concat chunks = doc -> (term = TEofSep \/ term = TEofWith) ->
+  exists o wf g,
+    observe_frame f = Ok o /\ table_of (length (ix f)) o = t /\
+    iter_cols o tc = Ok wf /\ (forall nc, In nc wf -> In nc o) /\
+    match tc_columns tc with None => wf = o | Some order => map fst wf = order end /\
+    read_csv_buf atoi parse_float atob (read_conf_for e (tc_header tc) wf) chunks term = Ok g /\
+    g = map (fun nc => (fst nc, readback_col e (snd nc))) wf /\
+    table_of (length (ix f)) g = norm_table e (table_of (length (ix f)) wf).
+Proof.
+  intros Ht Hnd Hprem Hord Hcsv Hne Hcat Hterm.
+  destruct (observe_table f t Ht Hnd) as (o & Hobs & Htab & Hlens & Henum).
+  unfold phys_premises in Hprem. rewrite Hobs in Hprem.
+  unfold frame_to_csv in Hcsv. rewrite Hobs in Hcsv. cbn [obind] in Hcsv.
+  destruct (iter_cols o tc) as [wf| |] eqn:Hit;
+    try (unfold to_csv, to_csv_records in Hcsv; rewrite Hit in Hcsv; discriminate).
+  destruct (iter_cols_spec o tc wf Hit) as (Hsub & Hlen & Hnames).
+  pose proof (rt_premises_written e _ o wf tc Hit Hprem Hord) as Hpw.
+  assert (CsvWrite.frame_len o = length (ix f)) as Hn.
+  { destruct o as [|[n0 c0] o']; [discriminate Hprem|]. inversion Hlens; subst. assumption. }
+  exists o, wf, (map (fun nc => (fst nc, readback_col e (snd nc))) wf).
+  split; [exact Hobs|]. split; [exact Htab|]. split; [exact Hit|]. split; [exact Hsub|]. split; [exact Hnames|].
+  split; [|split; [reflexivity | apply table_of_readback]].
+  apply (roundtrip_fragmented format_float parse_float float_roundtrip o tc wf doc e chunks term); try assumption.
+  - rewrite Hn. exact Hpw.
+  - apply forallb_forall. intros nc Hnc. apply card_ok_observed.
+    rewrite Forall_forall in Henum. apply Henum. apply Hsub. exact Hnc.
+Qed.
+
+(* without Columns(order): the table read back is the logical table of the frame, normalised *)
+Corollary roundtrip_physical_table (f : frame) (t : table) hdr doc e (chunks : list bytes) (term : rterm) :
+  abs f = Ok t -> NoDup (col_names f) ->
+  phys_premises e f = true ->
+  frame_to_csv format_float f (mkToConf hdr None) = Ok doc ->
+  Forall (fun c : bytes => c <> []) chunks -> concat chunks = doc -> (term = TEofSep \/ term = TEofWith) ->
+  exists o g,
+    observe_frame f = Ok o /\
+    read_csv_buf atoi parse_float atob (read_conf_for e hdr o) chunks term = Ok g /\
+    table_of (length (ix f)) g = norm_table e t.
+Proof.
+  intros Ht Hnd Hprem Hcsv Hne Hcat Hterm.
+  destruct (roundtrip_physical f t (mkToConf hdr None) doc e chunks term Ht Hnd Hprem) as
+    (o & wf & g & H1 & H2 & H3 & H4 & H5 & H6 & H7 & H8); try assumption; [intros order H; discriminate|].
+  cbn [tc_columns tc_header] in *. subst wf. exists o, g. split; [exact H1|]. split; [exact H6|].
+  rewrite H8, H2. reflexivity.
+Qed.
+
+End Physical.
